@@ -768,7 +768,7 @@ def oracle(sc, impl, rc, err):
                              call="PlannerDataStorage::load", kind=(tr[2].split(":")[1] if len(tr) > 2 and ":" in tr[2] else "?"))
         elif op == "pdcross":
             if f.get("cross") != "rej":
-                huge = f.get("cross") == "" and re.search(r"allocation-size-too-big|out-of-memory", err or "")
+                huge = f.get("cross") == "" and re.search(r"allocation-size-too-big|out-of-memory|requested allocation size \S+ .*exceeds maximum supported size", err or "")
                 if huge:
                     rc_explained = True
                 fail("wrong-kind-archive", "an archive of the other kind (geometric/control marker) was not rejected by returning false: %s%s" % (full[:80], " (the loader asked for an absurd allocation and the process died)" if huge else ""),
@@ -777,7 +777,7 @@ def oracle(sc, impl, rc, err):
         meta = sc.meta[died_at] if died_at < len(sc.meta) else {}
         partial = impl[died_at] if died_at < len(impl) else ""
         rec = {"engine": ENGINE, "what": "crash", "op": meta.get("op"), "call": meta.get("op")}
-        if meta.get("op") == "pdcross" and re.search(r"allocation-size-too-big|out-of-memory|bad_alloc|length_error", err or ""):
+        if meta.get("op") == "pdcross" and re.search(r"allocation-size-too-big|out-of-memory|bad_alloc|length_error|requested allocation size \S+ .*exceeds maximum supported size", err or ""):
             rec["what"] = "wrong-kind-archive"
             rec["how"] = "huge-allocation"
         if meta.get("op") in ("space", "state") and wc_below_compound(meta.get("sp", ('R', 0, 0))):
@@ -875,7 +875,16 @@ def strip(lines):
 
 def run_one(ck, hbin, sc, leak_stacks):
     env = {"ASAN_OPTIONS": "detect_leaks=1:abort_on_error=0:exitcode=99" + (":fast_unwind_on_malloc=0" if leak_stacks else "")}
-    impl, rc, err = ck.run_bin(hbin, sc.lines, timeout=600, env=env)
+    for attempt in range(3):
+        impl, rc, err = ck.run_bin(hbin, sc.lines, timeout=300, env=env)
+        # a timeout, or no output at all without a sanitizer report (libompl.so being relinked by a concurrent build of
+        # the shared cache, loader errors): an infrastructure hiccup, not a verdict -> retry, then give up loudly
+        if impl is None or (not impl and rc not in (0, 98, 99) and "Sanitizer" not in (err or "")):
+            ck.count("harness-retry")
+            continue
+        break
+    else:
+        raise RuntimeError("the harness could not be run (rc=%s): %s" % (rc, (err or "")[-300:]))
     model, rc2, err2 = ck.run_bin(ck.driver(DRIVER), sc.lines, timeout=600)
     if rc2 != 0:
         raise RuntimeError("model driver failed (rc=%s): %s" % (rc2, (err2 or "")[-500:]))
